@@ -8,6 +8,7 @@ Driver for the `commit` correspondence family (C10).
 SCRIPT := <puller> <comp none|zstd> <fmt beve|raw> <open ok|err|cut> <verify ok|rej> <trailer N>
           <dest old|none|dir|olds|nones> <stop -|N> <dec -|err|B> <fault -|N|sync> wire <resp>…
   puller := file | bevezst | beve | trailer | fileasync | verifiedasync | trailerasync
+            (an async puller may carry the suffix `@ws`: driven over a WebSocketClient; same model)
   resp   := c:<B>:<0|1>  (chunk body, last flag) | e (error response) | x (connection cut)
   B      := <H> (hex) | g<seed>.<len> (`genBytes seed len`, for large bodies)
   fault  := N: the temp file takes N bytes and the write of the next one fails (the pulling child runs
@@ -82,7 +83,7 @@ def parseScript (ws : List String) : Option (Parsed × List String) :=
   | pu :: co :: fm :: op :: ve :: tr :: de :: st :: dc :: wf :: "wire" :: rest =>
     let wireWs := rest.takeWhile (· ≠ "::")
     let after := (rest.dropWhile (· ≠ "::")).drop 1
-    match pullerOf pu, compOf co, allSome (wireWs.map respOf), decOf dc with
+    match pullerOf (if pu.endsWith "@ws" then (pu.dropEnd 3).toString else pu), compOf co, allSome (wireWs.map respOf), decOf dc with
     | some p, some comp, some wire, some dec =>
       if (fm = "beve" ∨ fm = "raw") ∧ (op = "ok" ∨ op = "err" ∨ op = "cut") ∧ (ve = "ok" ∨ ve = "rej")
           ∧ (de = "old" ∨ de = "none" ∨ de = "dir" ∨ de = "olds" ∨ de = "nones") ∧ tr.isNat ∧ (st = "-" ∨ st.isNat) ∧ (wf = "-" ∨ wf = "sync" ∨ wf.isNat) then
